@@ -313,7 +313,13 @@ def run(ctx):
             n_sites += 1
             fns.add(p)
             live = set(b.blocks[t["target"]]["live_in"])
-            bad_l = sorted((live & refs) - {t["dest"]["l"]})
+            # the cut writes `no_backtracking` of this node (and of ancestors) through a raw pointer: that invalidates
+            # references covering that field — references to the whole node or to the flag itself.  A reference to
+            # another field covers other bytes and is not affected.
+            def covers_flag(l):
+                to = b.locals[l].get("to", "")
+                return to.startswith(NODE_TY) or to == "bool"
+            bad_l = sorted(l for l in (live & refs) - {t["dest"]["l"]} if covers_flag(l))
             # the receiver reference of the setter call itself dies with the call
             ctx.ob("R3b", "call(%s->%s@L%d)" % (b.name, nm.split("::")[-1], 0) if False else
                    "call(%s->%s#%d)" % (b.name, nm.split("::")[-1], sum(1 for o in ctx.obs if o["rule"] == "R3b" and
